@@ -482,9 +482,48 @@ def prologue_corpus():
     return out
 
 
+def long_name_sessions(rng, res, count):
+    """C12 "always ends, stays in step": a Put that LOSES its CAS on a path whose last component is so long that the staging name
+    still fits NAME_MAX while the conflict-copy name (`.conflict-` + 12 hex, then `-1`, `-2`, …) does not — every candidate name
+    fails with ENAMETOOLONG, none is "free". The session must end by itself, answer every request once, and serve the next ones
+    (seed C12-M: a search that takes every stat error but NotFound for "name taken" never ends, under the commit lock)."""
+    body = b"loser's bytes"
+    hb = bytes.fromhex(blake3_hex([body])[0])
+    ok_body = b"next request's bytes"
+    hok = bytes.fromhex(blake3_hex([ok_body])[0])
+    for ln_ in (200, 230, 234, 236, 239, 243, 250):
+        for nested in (False, True):
+            name = ("d/" if nested else "") + "L" * ln_
+            for expected in (bytes(32), None):
+                tree = {} if expected is not None else {name: b"already there"}
+                if ln_ > 240 and tree:
+                    continue
+                with Sandbox("C12") as sb:
+                    root = sb.path("hub"); sb.write_tree(root, tree); os.makedirs(os.path.join(root, ".copia"), exist_ok=True)
+                    stream = (MAGIC + frame(req_hello()) + frame(req_put(name, expected, len(body), hb)) + body
+                              + frame(req_put("ok", None, len(ok_body), hok)) + ok_body + frame(req_get("ok")) + frame(req_bye()))
+                    rc, out, err = run_server(sb, root, stream, timeout=15, rust_log=[None, "trace"][ln_ % 2])
+                    after = hub_tree(root)
+                count("stream/cas-loser-on-a-long-name")
+                ot = parse_replies(out)
+                rep = {"kind": "cas-loser-on-a-long-name", "name_bytes": ln_, "nested": nested, "expected": "32 zero bytes" if expected is not None else "None (create) while the path exists",
+                       "rc": rc, "stderr": err[-300:], "replies": [t[:80] for t in ot[:6]], "stdout_hex": out[:160].hex()}
+                if rc not in (0, 1):
+                    key = "server-timeout" if rc == "timeout" else "server-killed-by-signal"
+                    res["violations"].append((key, f"copia serve ended with {rc} on a CAS-losing Put to a {ln_}-byte name: the session did not end after its input was closed", rep))
+                    continue
+                if rc == 0 and (len(ot) != 4 or not ot[0].startswith("hello:") or not ot[2].startswith("put:1:") or not ot[3].startswith(f"content:{len(ok_body)}:")):
+                    res["violations"].append(("replies-out-of-step-after-long-name", "after a CAS-losing Put to a long name the reply stream is not one reply per request", rep))
+                if rc == 0 and after.get("ok") != ok_body:
+                    res["violations"].append(("next-put-not-committed", "the Put after the CAS-losing one was acknowledged but is not in the tree", rep))
+                if tree and after.get(name) != tree[name]:
+                    res["violations"].append(("cas-loser-overwrote", "a create-only Put replaced the existing file", rep))
+
+
 def run_c12(pid, tier, seed, rundir, model_run, res, count):
     rng = Rng(seed ^ 0xC12)
     fs_failure_sessions(rng, res, count)
+    long_name_sessions(rng, res, count)
     n = 160 * (12 if tier == "thorough" else 1)
     dec = ReqDecoder()
     ops, impl, reps = [], [], []
@@ -526,6 +565,10 @@ def run_c12(pid, tier, seed, rundir, model_run, res, count):
         if len(res["samples"]) < 6:
             res["samples"].append({"kind": kind, "session": desc[:6], "replies": toks[:6], "rc": rc})
         # ---- oracles on the real server
+        if rc == 0 and any(t in ("TRUNCATED-REPLY", "UNDECODABLE-REPLY", "UNKNOWN-REPLY") or t.endswith(":SHORT") for t in toks):
+            # the session ended cleanly and yet its output is not a sequence of reply frames (seed C11-M / C10-M: a log line of the
+            # server, enabled by RUST_LOG, written to stdout between the frames)
+            res["violations"].append(("reply-stream-not-frames", f"copia serve exited 0 but its output is not a sequence of well-formed replies (RUST_LOG={[None, 'default', 'trace'][i % 3]})", dict(rep, stdout_hex=out[:300].hex())))
         if rc not in (0, 1):
             key = "server-timeout" if rc == "timeout" else "server-killed-by-signal"
             res["violations"].append((key, f"copia serve ended with {rc} on a {kind} input", rep))
@@ -650,7 +693,10 @@ def run_c11(pid, tier, seed, rundir, model_run, res, count):
                 after_hashes.append(h3.hex())
             stream += frame(req_bye())
             tf = sb.path("trace.txt")
-            rc, out, err = run_server(sb, root, stream, strace_out=tf)
+            # the hub account's logging configuration is not the client's business: refusals, commits and conflicts are answered
+            # the same way with logging off, at its default and at its most verbose (seed C11-M: a debug event on the refusal path
+            # went to stdout, the reply channel)
+            rc, out, err = run_server(sb, root, stream, strace_out=tf, rust_log=[None, "trace", "default", "copia=debug"][i % 4])
             toks = parse_replies(out)
             tp = trace_paths(tf)
             after_out = {f: open(os.path.join(sb.path("outer"), f), "rb").read() for f in os.listdir(sb.path("outer")) if os.path.isfile(os.path.join(sb.path("outer"), f))}
